@@ -22,8 +22,8 @@ ANCHORS = ["decaylanguage.dec.dec:DecFileParser.expand_decay_modes", "decaylangu
 WORKERS = {"quick": 4, "thorough": 16}
 WTESTS = {"groups": ['parser_chains'], "tests": ['tests/dec', 'tests/decay']}
 REQUIRED = {"product>=2x2-in-one-line": 30, "line-with>=3-multi-mode-daughters": 10, "line-without-daughters": 20, "decaying-alias-at-depth>=2": 10,
-            "decaying-alias-top": 10, "non-decaying-alias": 20, "empty-block-daughter": 20, "same-decaying-daughter-twice": 20, "paths>=50": 20,
-            "corpus-mother": 20, "expand-after-chains-with-stable-set": 20, "two-instances-queried-alternately": 20, "two-decaying-names-of-one-particle": 5, "C10.expand.count_and_paths": 100}
+            "decaying-alias-top": 10, "non-decaying-alias": 20, "blockless-alias-of-a-decaying-particle-as-daughter": 20, "empty-block-daughter": 20, "same-decaying-daughter-twice": 20, "paths>=50": 20,
+            "corpus-mother": 20, "expand-after-chains-with-stable-set": 20, "expand-after-editing-returned-values": 20, "two-instances-queried-alternately": 20, "two-decaying-names-of-one-particle": 5, "C10.expand.count_and_paths": 100}
 ASSUMPTIONS = ["names have balanced parentheses and no blanks; table sets are acyclic", "default descriptor format while expanding"]
 
 
@@ -77,6 +77,8 @@ def classify(ctx, T, m, al, memo):
         ctx.hit("decaying-alias-at-depth>=2")
     if any(y in al and not (y in T and T[y]) for ln in T[m] for y in ln["fs"]):
         ctx.hit("non-decaying-alias")
+    if any(y in al and y not in T and al[y] in T and T[al[y]] for x in reach for ln in T[x] for y in ln["fs"]):
+        ctx.hit("blockless-alias-of-a-decaying-particle-as-daughter")
 
 
 def check(ctx, p, T, m, al, wit, workload):
@@ -96,6 +98,12 @@ def check(ctx, p, T, m, al, wit, workload):
             ctx.hit("expand-after-chains-with-stable-set")
             ctx.guard("chain-before-expand", w, p.build_decay_chains, m, S)
             contracts.drain()
+    if ctx.rng.random() < 0.3:
+        # the caller has edited what earlier queries returned (alias dictionary, mode lists, chains): the expansion is still the file's
+        ctx.hit("expand-after-editing-returned-values")
+        w["before_edit"] = True
+        snapshot.edit_returned_values(p, [m])
+        contracts.drain()
     ok, got = ctx.guard("expand", w, p.expand_decay_modes, m)
     for v in contracts.drain():
         ctx.violate(v["mechanism"], v["message"], w)
